@@ -256,7 +256,11 @@ class NumericRange(RangeMixin, qcore.Query):
         self.constantscore = constantscore
 
     def simplify(self, ixreader):
-        return self._compile_query(ixreader).simplify(ixreader)
+        # The compiled query already consists of low-level Term/TermRange
+        # queries on the raw bytes of the tiered numeric terms. Expanding them
+        # with MultiTerm.simplify() would decode the bytes with from_bytes(),
+        # which drops the tier (shift) and so produces terms that don't exist
+        return self._compile_query(ixreader)
 
     def estimate_size(self, ixreader):
         return self._compile_query(ixreader).estimate_size(ixreader)
